@@ -556,13 +556,24 @@ def DtProxy_init_signature : List String := ["self", "vector"]
 /-- the calls of dataiter/vector.py: DtProxy.__init__ in the order Python makes them along the source text -/
 def DtProxy_init_call_order : List String := ["wrap", "wrap", "wrap", "wrap", "wrap", "wrap", "wrap", "wrap", "wrap", "wrap", "wrap", "wrap", "wrap", "wrap", "wrap"]
 
-/-- dataiter/vector.py: ReProxy.__init__ (sha256 of the function source: 7defb5bd637c91f6) -/
+/-- dataiter/vector.py: ReProxy.__init__ (sha256 of the function source: e1afeb5955f50e1e) -/
 def ReProxy_init (truth : Term → Bool) : Out :=
-  let attr0_1' : Term := (Term.sym "regex");
-  let eff0 : Term := (Term.app "setattr" [(Term.sym "self"), (Term.sym "_regex"), attr0_1']);
-  let attr1_1' : Term := (Term.sym "vector");
-  let eff1 : Term := (Term.app "setattr" [(Term.sym "self"), (Term.sym "_vector"), attr1_1']);
-  Out.fall [eff0, eff1]
+  let wrap' : Term := (Term.app "lambda" [(Term.app "params" [(Term.sym "f")]), (Term.app "functools.partial" [(Term.sym "f"), (Term.app "=string" [(Term.sym "vector")])])]);
+  let attr0_1' : Term := (Term.app "call" [wrap', (Term.sym "regex.findall")]);
+  let eff0 : Term := (Term.app "setattr" [(Term.sym "self"), (Term.sym "findall"), attr0_1']);
+  let attr1_1' : Term := (Term.app "call" [wrap', (Term.sym "regex.fullmatch")]);
+  let eff1 : Term := (Term.app "setattr" [(Term.sym "self"), (Term.sym "fullmatch"), attr1_1']);
+  let attr2_1' : Term := (Term.app "call" [wrap', (Term.sym "regex.match")]);
+  let eff2 : Term := (Term.app "setattr" [(Term.sym "self"), (Term.sym "match"), attr2_1']);
+  let attr3_1' : Term := (Term.app "call" [wrap', (Term.sym "regex.search")]);
+  let eff3 : Term := (Term.app "setattr" [(Term.sym "self"), (Term.sym "search"), attr3_1']);
+  let attr4_1' : Term := (Term.app "call" [wrap', (Term.sym "regex.split")]);
+  let eff4 : Term := (Term.app "setattr" [(Term.sym "self"), (Term.sym "split"), attr4_1']);
+  let attr5_1' : Term := (Term.app "call" [wrap', (Term.sym "regex.sub")]);
+  let eff5 : Term := (Term.app "setattr" [(Term.sym "self"), (Term.sym "sub"), attr5_1']);
+  let attr6_1' : Term := (Term.app "call" [wrap', (Term.sym "regex.subn")]);
+  let eff6 : Term := (Term.app "setattr" [(Term.sym "self"), (Term.sym "subn"), attr6_1']);
+  Out.fall [eff0, eff1, eff2, eff3, eff4, eff5, eff6]
 
 /-- the decorators of dataiter/vector.py: ReProxy.__init__, outermost first -/
 def ReProxy_init_decorators : List String := []
@@ -571,7 +582,7 @@ def ReProxy_init_decorators : List String := []
 def ReProxy_init_signature : List String := ["self", "vector"]
 
 /-- the calls of dataiter/vector.py: ReProxy.__init__ in the order Python makes them along the source text -/
-def ReProxy_init_call_order : List String := []
+def ReProxy_init_call_order : List String := ["wrap", "wrap", "wrap", "wrap", "wrap", "wrap", "wrap"]
 
 /-- dataiter/vector.py: StrProxy.__init__ (sha256 of the function source: b47c2036e6dfc70f) -/
 def StrProxy_init (truth : Term → Bool) : Out :=
